@@ -1,6 +1,7 @@
 package main
 
 import (
+	"encoding/hex"
 	"fmt"
 	"math"
 	"math/big"
@@ -10,6 +11,7 @@ import (
 	"github.com/elastos/Elastos.ELA/common"
 	"github.com/elastos/Elastos.ELA/common/config"
 	"github.com/elastos/Elastos.ELA/core"
+	"github.com/elastos/Elastos.ELA/core/contract"
 	"github.com/elastos/Elastos.ELA/core/contract/program"
 	"github.com/elastos/Elastos.ELA/core/transaction"
 	common2 "github.com/elastos/Elastos.ELA/core/types/common"
@@ -233,7 +235,7 @@ func (h *H) programCases() {
 	}
 
 	// the four signature checkers on every shape
-	rounds := h.run.N(1, 60)
+	rounds := h.run.N(1, 20)
 	for r := 0; r < rounds; r++ {
 		data := h.rng.Bytes(40)
 		for _, s := range h.progShapes(data) {
@@ -249,7 +251,7 @@ func (h *H) programCases() {
 	h.runCase(data, []byte{0x4B}, []bool{true}, []progShape{{[]byte{0x51}, []byte{}, "1-byte code under a cross-chain address (index -1 before the fix)"}})
 	w := msCode(0, 1, [][]byte{k, h.ks[1].enc}, 0, 2, 0xAE)
 	h.runCase(data, []byte{0x21}, []bool{true}, []progShape{{w[:len(w)-1], []byte{}, "truncated multisig code under a standard address (IsMultiSig index 70 of 70 before the fix)"}})
-	for r := 0; r < h.run.N(1, 60); r++ {
+	for r := 0; r < h.run.N(1, 12); r++ {
 		data := h.rng.Bytes(40)
 		shapes := h.progShapes(data)
 		for _, s := range shapes { // each shape alone under each prefix
@@ -260,7 +262,7 @@ func (h *H) programCases() {
 				h.runCase(data, []byte{prefix}, []bool{!h.rng.Chance(8)}, []progShape{s})
 			}
 		}
-		for i := 0; i < h.run.N(25, 200); i++ { // lists of programs
+		for i := 0; i < h.run.N(25, 100); i++ { // lists of programs
 			n := h.rng.Range(0, 3)
 			var ps []progShape
 			var prefixes []byte
@@ -408,7 +410,11 @@ func (h *H) txCases() {
 		}
 		pld := &payload.WithdrawFromSideChain{Signers: c.signers}
 		tx := transaction.CreateTransaction(common2.TxVersion09, common2.WithdrawFromSideChain, 2, pld, nil, nil, nil, 0, nil)
-		in := map[string]interface{}{"arbiters": c.n, "signers": c.signers, "validate": c.validate}
+		sgInts := make([]int, len(c.signers))
+		for j, x := range c.signers {
+			sgInts[j] = int(x)
+		}
+		in := map[string]interface{}{"arbiters": c.n, "signers": sgInts, "validate": c.validate}
 		out := h.call("transaction.checkSchnorrWithdrawFromSidechain", in, func() bool {
 			err := transaction.CheckSchnorrWithdrawFromSidechainVerif(tx, pld, c.validate)
 			// only the signer loop is modelled: errors of the later key aggregation count as passed
@@ -586,6 +592,64 @@ func (h *H) txCases() {
 	}
 	params.PublicDPOSHeight = 1000
 
+	// ---- ReturnDepositCoin.SpecialContextCheck: producer key = code or code[1:len-1]
+	for i := 0; i < h.run.N(40, 1500); i++ {
+		n := h.rng.Range(1, 3)
+		var progs []*program.Program
+		var codes, known [][]byte
+		st.ActivityProducers = map[string]*state.Producer{}
+		guard := true
+		for j := 0; j < n; j++ {
+			var code []byte
+			switch h.rng.Intn(5) {
+			case 0:
+				code = h.rng.Bytes(h.rng.Range(0, 30))
+			case 1:
+				code = stdCode(h.randKey())
+			default:
+				nb := h.neighbours(h.randomCode())
+				code = nb[h.rng.Intn(len(nb))]
+			}
+			if len(code) < program.MinProgramCodeSize {
+				guard = false
+			}
+			progs = append(progs, &program.Program{Code: code, Parameter: []byte{}})
+			codes = append(codes, code)
+			if h.rng.Chance(60) { // register the key this code stands for
+				var key []byte
+				isMs := false
+				lib.Recover(func() { isMs = contract.IsMultiSig(code) })
+				if isMs {
+					key = code
+				} else if len(code) >= 2 {
+					key = code[1 : len(code)-1]
+				}
+				if key != nil {
+					st.ActivityProducers[hex.EncodeToString(key)] = &state.Producer{}
+					known = append(known, key)
+				}
+			}
+		}
+		var tx interfaces.Transaction = transaction.CreateTransaction(common2.TxVersion09, common2.ReturnDepositCoin, 0, &payload.ReturnDepositCoin{}, nil, nil, nil, 0, progs)
+		tx.SetParameters(&transaction.TransactionParameters{Transaction: tx, BlockHeight: 2000, Config: params, BlockChain: chain})
+		tx.SetReferences(map[*common2.Input]common2.Output{{}: {Value: 1}})
+		in := map[string]interface{}{"codes": zllHex(codes), "guard": guard}
+		out := h.callQuiet(func() bool {
+			err, _ := tx.SpecialContextCheck()
+			// only the program loop is modelled: the later balance comparison counts as passed
+			return err == nil || !strings.Contains(err.Error(), "signer must be producer")
+		})
+		if out >= 2 && guard { // CheckAttributeProgram guarantees >= 23 bytes of code
+			h.st.Fail("transaction.ReturnDepositCoin.SpecialContextCheck:panic", "ReturnDepositCoin SpecialContextCheck panicked on program codes of at least 23 bytes", in)
+		}
+		k := h.next()
+		h.sh.Add(fmt.Sprintf("CRetDep %d %s %s %d", k, zll(known), zll(codes), out))
+		in["out"] = out
+		h.st.LogCase(h.run.Out, k, in)
+		h.st.Count(fmt.Sprintf("retdep:%v:%d", in["codes"], out), guard, "CRetDep")
+	}
+	st.ActivityProducers = map[string]*state.Producer{}
+
 	// ---- CheckAttributeProgram (the guard: code of at least 23 bytes)
 	for i := 0; i < h.run.N(60, 2000); i++ {
 		n := h.rng.Intn(4)
@@ -621,4 +685,12 @@ func (h *H) txCases() {
 		h.st.LogCase(h.run.Out, k, in)
 		h.st.Count(fmt.Sprintf("attr:%v:%d", ps, out), n > 0, "CAttr")
 	}
+}
+
+func zllHex(bs [][]byte) []string {
+	xs := make([]string, len(bs))
+	for i, b := range bs {
+		xs[i] = hx(b)
+	}
+	return xs
 }
